@@ -466,16 +466,14 @@ fn main() {
             }
         }
         for kind in kinds {
+            std::thread::sleep(std::time::Duration::from_millis(1100));
             let mut touched: Vec<usize> = Vec::new();
             for (i, set) in refs.iter().enumerate() {
                 if let Some((p, _)) = set.iter().find(|(_, k)| **k == kind) {
                     let mut text = std::fs::read_to_string(p).unwrap();
                     text.push_str("// edited by C32\n");
+                    // a plain write: mtime = now, later than the previous build, never in the future
                     std::fs::write(p, text).unwrap();
-                    let when = std::time::SystemTime::now() + std::time::Duration::from_secs(3 + edit_rounds as u64);
-                    if let Ok(fh) = std::fs::File::options().write(true).open(p) {
-                        let _ = fh.set_modified(when);
-                    }
                     touched.push(i);
                     edits += 1;
                 }
@@ -489,6 +487,10 @@ fn main() {
                 let fresh = out.text.contains(&format!("Fresh {} ", c.crate_name()));
                 let was_touched = touched.contains(&i);
                 evaluations += 1;
+                if !was_touched && !fresh {
+                    // an untouched crate that is re-checked would make "re-checked" meaningless
+                    vcommon::machinery(&format!("{}: re-checked although none of its files was edited (round {kind})", c.name()));
+                }
                 if was_touched && fresh {
                     *outcomes.entry(format!("edit-NOT-rechecked:{kind}")).or_default() += 1;
                     run.violation(
@@ -528,7 +530,7 @@ fn main() {
             "Reference read-set = layout files whose corruption makes wit_parser::Resolve::push_path over the same roots fail, united with the source list push_path returns; decoy files (non-.wit, nested directories, deps/ of a dep) are not demanded.".into(),
             "A file counts as tracked when its canonical path occurs in the newest target/debug/deps/<crate>-*.d written by rustc for the case crate (native `cargo check --offline`, wit-bindgen default features).".into(),
             "The shared target directory <verif>/target/c32-<hash of repo root> is kept between runs so that the proc macro is compiled once; a cold run needs 1-3 minutes for that build.".into(),
-            "Thorough: files are edited kind by kind (content + mtime in the future) and `cargo check -v` must not report the crate `Fresh`.".into(),
+            "Thorough: files are edited kind by kind (content appended, mtime = now) and `cargo check -v` must not report the crate `Fresh`.".into(),
         ],
     );
 }
